@@ -13,15 +13,55 @@ from .c02 import check_frame_rule
 from .cache_model import self_attr
 
 
+def _roles(fa):
+    """Names of store()'s locals by role (so that the rules do not depend on how they are spelled)."""
+    r = {}
+    ser = fa.calls("_serialize_index")
+    r["INDEX"] = ser[0].args[0].id if ser and ser[0].args and isinstance(ser[0].args[0], ast.Name) else "index"
+    mp = [s_ for s_ in fa.stmts(ast.Assign) if A.norm(s_.value) == "obj._merge_parent" and isinstance(s_.targets[0], ast.Name)]
+    r["MP"] = mp[0].targets[0].id if mp else "merge_parent"
+    r["ploops"], r["oloops"] = [], []
+    for n in fa.cfg.nodes:
+        if n.kind != "for":
+            continue
+        flags = set()
+        for c in A.calls_in(n.ast):
+            if A.call_attr(c) == "_ResultTypeAndContentKey" and A.kwarg(c, "from_parent") is not None:
+                flags.add(A.norm(A.kwarg(c, "from_parent")))
+        if flags == {"True"}:
+            r["ploops"].append(n)
+        elif flags == {"False"}:
+            r["oloops"].append(n)
+    pl = r["ploops"][0].ast if len(r["ploops"]) == 1 else None
+    r["PIDX"] = None
+    r["PK"] = r["PV"] = None
+    if pl is not None:
+        it = pl.iter
+        if isinstance(it, ast.Call) and A.call_attr(it) == "items" and isinstance(A.call_recv(it), ast.Name):
+            r["PIDX"] = A.call_recv(it).id
+        if isinstance(pl.target, ast.Tuple) and len(pl.target.elts) == 2:
+            r["PK"], r["PV"] = A.norm(pl.target.elts[0]), A.norm(pl.target.elts[1])
+    ol = r["oloops"][0].ast if len(r["oloops"]) == 1 else None
+    r["KEYS"] = ol.iter.id if ol is not None and isinstance(ol.iter, ast.Name) else None
+    r["PDS"] = None
+    if pl is not None:
+        for c in A.calls_in(pl):
+            if A.call_attr(c) == "reference" and c.args and isinstance(c.args[0], ast.Name):
+                r["PDS"] = c.args[0].id
+    return r
+
+
 def check_protocol(ck, R):
     ck.rule(R, "merge-parent protocol: for every concrete Partition class other than the stored form, the 'remember "
                "where it was written' test in store() succeeds on its declared attributes, the 'usable as parent' test "
                "can succeed, and the attributes written are the ones later read from a parent", 5)
     fa = FA(ck, PM.STORE)
+    ro = _roles(fa)
+    MP, INDEX = ro["MP"], ro["INDEX"]
     writes = PM.store_writes_on_obj(fa)
     remember = [(a, s, g) for (a, s, g) in writes if g is not None and "hasattr(obj" in A.norm(g.test)]
-    # the parent branch (elif) that reads merge_parent.<attrs>
-    parent_ifs = [i for i in fa.stmts(ast.If) if "merge_parent" in A.norm(i.test) and ("hasattr(merge_parent" in A.norm(i.test) or "getattr(merge_parent" in A.norm(i.test))]
+    # the parent branch (elif) that reads <merge parent>.<attrs>
+    parent_ifs = [i for i in fa.stmts(ast.If) if ("hasattr(%s" % MP) in A.norm(i.test) or ("getattr(%s" % MP) in A.norm(i.test)]
     ok_shape = bool(remember) and len(parent_ifs) == 1
     ck.ob(R, fa.key(None, "merge-parent-protocol"), ok_shape, "store() has a remember-branch and a duck-typed parent branch" if ok_shape else
           "store() no longer has both the remember-output-keys branch and the duck-typed parent branch", fa.where())
@@ -29,7 +69,7 @@ def check_protocol(ck, R):
         return
     pif = parent_ifs[0]
     parent_reads = sorted({n.attr for n in A.walk_local(ast.Module(body=pif.body, type_ignores=[])) if isinstance(n, ast.Attribute)
-                           and isinstance(n.value, ast.Name) and n.value.id == "merge_parent"})
+                           and isinstance(n.value, ast.Name) and n.value.id == MP})
     written = sorted({a for (a, s, g) in remember})
     okw = set(parent_reads) <= set(written)
     ck.ob(R, fa.key(pif, "written-is-read"), okw, "a parent is read through %s, which store() records on every serialised partition" % parent_reads if okw else
@@ -63,7 +103,7 @@ def check_protocol(ck, R):
               "%s passes the remember test: its output location is recorded when it is stored" % cls.name if v1 is True else
               "%s does not satisfy `%s` (declares %s): after being stored it cannot serve as a merge parent" % (cls.name, A.short(g_rem.test, 80), sorted(a for a in attrs if a.startswith("_"))),
               fa.where(g_rem))
-        v2 = PM.eval_duck_test(pif.test, attrs, False, "merge_parent")
+        v2 = PM.eval_duck_test(pif.test, attrs, False, MP)
         ck.ob(R, "%s::%s::usable-as-parent" % (fa.qual, cls.name), v2 is not False,
               "%s can satisfy the parent test once stored" % cls.name if v2 is not False else
               "%s can never satisfy `%s`: a child partition with such a parent is not memoized" % (cls.name, A.short(pif.test, 80)), fa.where(pif))
@@ -77,10 +117,12 @@ def check_protocol(ck, R):
     # stored form as parent
     pp = ck.repo.cls(PM.PICKLE_PARTITION)
     pattrs = PM.declared_attrs(ck, pp)
-    iso = [i for i in fa.stmts(ast.If) if "isinstance(merge_parent" in A.norm(i.test)]
+    iso = [i for i in fa.stmts(ast.If) if ("isinstance(%s" % MP) in A.norm(i.test)]
     if iso:
+        aliases = {MP} | {s_.targets[0].id for s_ in A.walk_local(ast.Module(body=iso[0].body, type_ignores=[])) if isinstance(s_, ast.Assign)
+                          and isinstance(s_.targets[0], ast.Name) and fa.xnorm(s_.value, fa.nodes(s_)[0]) in (MP, "obj._merge_parent")}
         reads = sorted({n.attr for n in A.walk_local(ast.Module(body=iso[0].body, type_ignores=[])) if isinstance(n, ast.Attribute)
-                        and isinstance(n.value, ast.Name) and n.value.id in ("pickle_partition_parent", "merge_parent")})
+                        and isinstance(n.value, ast.Name) and n.value.id in aliases})
         okp = set(reads) <= pattrs
         ck.ob(R, fa.key(iso[0], "stored-form-parent"), okp, "a partition read back from the store serves as parent through %s" % reads if okp else
               "the stored-form parent branch reads %s, not all declared by PicklePartition" % reads, fa.where(iso[0]))
@@ -89,12 +131,12 @@ def check_protocol(ck, R):
     # over from its own index
     carried = False
     for s_ in fa.stmts(ast.Assign):
-        if any(isinstance(t, ast.Name) and t.id == "merge_parent" for t in s_.targets) and A.norm(s_.value) == "obj":
+        if any(isinstance(t, ast.Name) and t.id == MP for t in s_.targets) and A.norm(s_.value) == "obj":
             g = fa.enclosing(s_, ast.If)
             if g is not None and "isinstance(obj" in A.norm(g.test) and "PicklePartition" in A.norm(g.test):
                 carried = True
     for lp_ in [n.ast for n in fa.cfg.nodes if n.kind == "for"]:
-        if "obj._index" in A.norm(lp_.iter) and any(isinstance(x, ast.Assign) and isinstance(x.targets[0], ast.Subscript) and A.norm(x.targets[0].value) == "index" for x in A.walk_local(lp_)):
+        if "obj._index" in A.norm(lp_.iter) and any(isinstance(x, ast.Assign) and isinstance(x.targets[0], ast.Subscript) and A.norm(x.targets[0].value) == INDEX for x in A.walk_local(lp_)):
             carried = True
     ck.ob(R, fa.key(None, "stored-form-restored"), carried, "a stored-form partition that is stored again carries its inherited entries over" if carried else
           "when the object being stored is itself the stored form (a function returning a partition it got from another memento function), only "
@@ -111,15 +153,16 @@ def check_overlay(ck, R):
                "one index that is serialised", 6)
     fa = FA(ck, PM.STORE)
     cfg = fa.cfg
-    ploops = [n for n in cfg.nodes if n.kind == "for" and "parent_index" in A.norm(n.ast.iter)]
-    oloops = [n for n in cfg.nodes if n.kind == "for" and A.norm(n.ast.iter) == "keys"]
+    ro = _roles(fa)
+    MP, INDEX, KEYS, PV, PDS = ro["MP"], ro["INDEX"], ro["KEYS"], ro["PV"], ro["PDS"]
+    ploops, oloops = ro["ploops"], ro["oloops"]
     ok = len(ploops) == 1 and len(oloops) == 1
     ck.ob(R, fa.key(None, "two-loops"), ok, "parent loop and own-keys loop found" if ok else
           "store() no longer has one parent-index loop and one own-keys loop", fa.where())
     if not ok:
         return
     pl, ol = ploops[0], oloops[0]
-    mp = [n.id for n in cfg.nodes if n.kind == "test" and A.norm(n.ast) == "merge_parent"]
+    mp = [n.id for n in cfg.nodes if n.kind == "test" and A.norm(n.ast) in (MP, MP + " is not None")]
     # with a parent, the parent loop is passed before the own loop
     okp = bool(mp)
     if okp:
@@ -133,9 +176,9 @@ def check_overlay(ck, R):
           "own keys are not layered after the parent's entries: a parent entry can overwrite the partition's own key", fa.where(pl.ast))
     # parent entries: same result_type/content_key, from_parent=True, into `index`
     pent = [c for c in A.calls_in(pl.ast) if A.call_attr(c) == "_ResultTypeAndContentKey"]
-    okpe = len(pent) == 1 and A.norm(A.kwarg(pent[0], "from_parent")) == "True" and A.norm(A.kwarg(pent[0], "result_type")) == "v.result_type" \
-        and A.norm(A.kwarg(pent[0], "content_key")) == "v.content_key"
-    pst = [s for s in A.walk_local(pl.ast) if isinstance(s, ast.Assign) and isinstance(s.targets[0], ast.Subscript) and A.norm(s.targets[0].value) == "index"]
+    okpe = len(pent) == 1 and A.norm(A.kwarg(pent[0], "from_parent")) == "True" and A.norm(A.kwarg(pent[0], "result_type")) == "%s.result_type" % PV \
+        and A.norm(A.kwarg(pent[0], "content_key")) == "%s.content_key" % PV
+    pst = [s for s in A.walk_local(pl.ast) if isinstance(s, ast.Assign) and isinstance(s.targets[0], ast.Subscript) and A.norm(s.targets[0].value) == INDEX]
     okpe = okpe and len(pst) == 1 and A.norm(pst[0].targets[0].slice) == A.norm(pl.ast.target.elts[0])
     ck.ob(R, fa.key(pl.ast, "parent-entries"), okpe, "parent entries keep their type and content key and are marked from_parent" if okpe else
           "parent entries are not copied as (result_type, content_key, from_parent=True) under their own key", fa.where(pl.ast))
@@ -147,35 +190,47 @@ def check_overlay(ck, R):
         ck.ob(R, fa.key(pl.ast, "every-parent-entry"), okall, "every parent entry is copied into the merged index" if okall else
               "an iteration of the parent loop can skip `index[k] = ...` (continue / early exit): such parent-only keys disappear from the stored child", fa.where(pl.ast))
     refs = [c for c in A.calls_in(pl.ast) if A.call_attr(c) == "reference"]
-    okr = bool(refs) and all([A.norm(a) for a in c.args] == ["parent_data_source", "v.content_key", "v.content_key"] for c in refs)
+    okr = bool(refs) and PDS is not None and all([A.norm(a) for a in c.args] == [PDS, "%s.content_key" % PV, "%s.content_key" % PV] for c in refs)
+    if okr:
+        # the data source named is the parent's own (read off the parent object in the same branch as its index)
+        pds_defs = [d for i in fa.nodes(refs[0]) for d in fa.df.reaching(i, PDS)]
+        okr = bool(pds_defs) and all(d.value is not None and isinstance(d.value, ast.Attribute) and d.value.attr in ("_data_source", "_parent_data_source") for d in pds_defs)
     ck.ob(R, fa.key(pl.ast, "parent-referenced"), okr, "inherited objects are referenced in the target data source" if okr else
           "inherited objects are not referenced from the parent's data source", fa.where(pl.ast))
     # own keys
-    kd = [s for s in fa.stmts(ast.Assign) if any(isinstance(t, ast.Name) and t.id == "keys" for t in s.targets)]
+    kd = [s for s in fa.stmts(ast.Assign) if KEYS is not None and any(isinstance(t, ast.Name) and t.id == KEYS for t in s.targets)]
     okk = len(kd) == 1 and isinstance(kd[0].value, ast.Call) and A.call_attr(kd[0].value) == "list_keys" and A.norm(A.call_recv(kd[0].value)) == "obj" \
         and A.norm(A.kwarg(kd[0].value, "_include_merge_parent")) == "False"
-    ck.ob(R, fa.key(kd[0] if kd else None, "own-keys-only"), okk, "only the partition's own keys are re-stored" if okk else
+    ck.ob(R, fa.key(None, "own-keys-only"), okk, "only the partition's own keys are re-stored" if okk else
           "own keys are not taken from obj.list_keys(_include_merge_parent=False): parent data is re-stored or own keys are missed", fa.where())
     oent = [c for c in A.calls_in(ol.ast) if A.call_attr(c) == "_ResultTypeAndContentKey"]
-    okoe = len(oent) == 1 and A.norm(A.kwarg(oent[0], "from_parent")) == "False" and A.norm(A.kwarg(oent[0], "result_type")) == "result_type" \
-        and A.norm(A.kwarg(oent[0], "content_key")) == "partition_content_key"
-    ost = [s for s in A.walk_local(ol.ast) if isinstance(s, ast.Assign) and isinstance(s.targets[0], ast.Subscript) and A.norm(s.targets[0].value) == "index"]
-    okoe = okoe and len(ost) == 1 and A.norm(ost[0].targets[0].slice) == A.norm(ol.ast.target)
+    LK = A.norm(ol.ast.target)
+    gets = [s for s in A.walk_local(ol.ast) if isinstance(s, ast.Assign) and isinstance(s.value, ast.Call) and A.call_attr(s.value) == "get" and A.norm(A.call_recv(s.value)) == "obj"]
+    VAL = A.norm(gets[0].targets[0]) if len(gets) == 1 else None
+    okoe = len(oent) == 1 and VAL is not None and A.norm(A.kwarg(oent[0], "from_parent")) == "False"
+    if okoe:
+        at = fa.nodes(oent[0])[0]
+        okoe = fa.xnorm(A.kwarg(oent[0], "result_type"), at) == "ResultType.from_object(obj.get(%s))" % LK \
+            and fa.xnorm(A.kwarg(oent[0], "content_key"), at).startswith("self._codec.store(ResultType.from_object(obj.get(%s)), data_source, " % LK)
+    ost = [s for s in A.walk_local(ol.ast) if isinstance(s, ast.Assign) and isinstance(s.targets[0], ast.Subscript) and A.norm(s.targets[0].value) == INDEX]
+    okoe = okoe and len(ost) == 1 and A.norm(ost[0].targets[0].slice) == LK \
+        and fa.xnorm(ost[0].value, fa.nodes(ost[0])[0]).startswith("_ResultTypeAndContentKey(")
     ck.ob(R, fa.key(ol.ast, "own-entries"), okoe, "own entries are recorded under their key with from_parent=False" if okoe else
           "own entries are not recorded as (result_type, stored key, from_parent=False) under their own key", fa.where(ol.ast))
     # value stored is the value classified
-    gets = [s for s in A.walk_local(ol.ast) if isinstance(s, ast.Assign) and isinstance(s.value, ast.Call) and A.call_attr(s.value) == "get" and A.norm(A.call_recv(s.value)) == "obj"]
     st = [c for c in A.calls_in(ol.ast) if A.call_attr(c) == "store"]
-    okv = len(gets) == 1 and len(st) == 1 and [A.norm(a) for a in st[0].args][0] == "result_type" and [A.norm(a) for a in st[0].args][3] == A.norm(gets[0].targets[0]) \
-        and [A.norm(a) for a in gets[0].value.args] == [A.norm(ol.ast.target)]
-    rtd = [s for s in A.walk_local(ol.ast) if isinstance(s, ast.Assign) and A.norm(s.targets[0]) == "result_type"]
-    okv = okv and len(rtd) == 1 and A.norm(rtd[0].value) == "ResultType.from_object(%s)" % A.norm(gets[0].targets[0])
+    okv = len(gets) == 1 and len(st) == 1 and len(st[0].args) >= 4 and [A.norm(a) for a in gets[0].value.args] == [LK]
+    if okv:
+        at = fa.nodes(st[0])[0]
+        okv = fa.xnorm(st[0].args[0], at) == "ResultType.from_object(obj.get(%s))" % LK and fa.xnorm(st[0].args[3], at) == "obj.get(%s)" % LK \
+            and A.norm(st[0].args[3]) == VAL
     ck.ob(R, fa.key(ol.ast, "value-per-key"), okv, "each key's value is fetched, classified and stored under its own type" if okv else
           "the per-key value is not (get(k) -> from_object -> codec.store) consistently", fa.where(ol.ast))
     # the same index is what is serialised, after both loops
     ser = [c for c in fa.calls("_serialize_index")]
-    oks = len(ser) == 1 and [A.norm(a) for a in ser[0].args] == ["index"] and all(cfg.must_pass([ol.id], i) for i in fa.nodes(ser[0]))
-    ck.ob(R, fa.key(ser[0] if ser else None, "one-index"), oks, "the merged index is serialised after both loops" if oks else
+    oks = len(ser) == 1 and [A.norm(a) for a in ser[0].args] == [INDEX] and all(cfg.must_pass([ol.id], i) for i in fa.nodes(ser[0])) \
+        and bool(pst) and bool(ost)
+    ck.ob(R, fa.key(None, "one-index"), oks, "the merged index is serialised after both loops" if oks else
           "the serialised index is not the merged `index` built by both loops", fa.where())
 
 
@@ -246,10 +301,15 @@ def check_index_tables(ck, R):
             if A.const_str(k):
                 enc.add(A.const_str(k))
     dec = set()
+    # the per-entry variable: any name bound by a loop / comprehension over the decoded mapping
+    ev = set()
+    for n in ast.walk(de.node):
+        if isinstance(n, (ast.comprehension, ast.For)):
+            ev |= {x.id for x in ast.walk(n.target) if isinstance(x, ast.Name)}
     for n in A.walk_body(de.node):
-        if isinstance(n, ast.Subscript) and A.const_str(n.slice) and A.norm(n.value) == "v":
+        if isinstance(n, ast.Subscript) and A.const_str(n.slice) and A.norm(n.value) in ev:
             dec.add(A.const_str(n.slice))
-        if isinstance(n, ast.Call) and A.call_attr(n) == "get" and A.norm(A.call_recv(n)) == "v" and n.args and A.const_str(n.args[0]):
+        if isinstance(n, ast.Call) and A.call_attr(n) == "get" and A.norm(A.call_recv(n)) in ev and n.args and A.const_str(n.args[0]):
             dec.add(A.const_str(n.args[0]))
     nt = ck.repo.module("storage_base").assigns.get("_ResultTypeAndContentKey")
     fields = set(A.strings_in(nt.args[1])) if isinstance(nt, ast.Call) and len(nt.args) > 1 else set()
